@@ -34,6 +34,13 @@ def main(tier, seed, replay=None):
             b_new = [hx(v, c["scalar"]) for v in distinct_params(rng, c["meta"]["P"], *c["meta"]["range"])]
             c["ops"] = c["ops"] + [["set", b_new], ["set", a_prev]] + states.OBS
         cases.append(c)
+    # a basis function of FOUR nonlinear parameters declared in another order than the model's parameter list (builder-made models
+    # route by name; hand-written twins for comparison): every derivative must be the one of the parameter it is registered under
+    for j in range(8 if tier == "quick" else 64):
+        c = gen_problem(rng, family=["mix4a", "mix4b", "mix4c", "mix4d"][j % 4], quant=(8 if j % 2 else None), builder_made=(j % 8 < 6),
+                        scalar=("f32" if j % 8 == 5 else "f64"), S=(2 if j % 3 == 0 else None))
+        c["ops"] = states.observe_at(rng, c, nsets=1)
+        cases.append(c)
     results, nterms, nskip, hist = states.run_states(run, "C03", binp, cases, 4, lambda code: code >= 10 or code == 2, "Jacobian")
     # the code-shaped formula U (U^T (W D_k C)) - W D_k C replayed exactly on the cached U and the reported coefficients
     from . import num
